@@ -147,6 +147,8 @@ def py_jobs(rng, quick):
             add("datetime", list(d) + list(t) + [rng.choice(tzs)])
     tds = [(0, 0, 0), (1, 0, 0), (0, 1, 0), (0, 0, 1), (-1, 0, 0), (0, 0, -1), (0, -1, 0), (1, 1, 1), (0, 0, 500000), (999999999, 0, 0), (-999999999, 0, 0), (0, 3600, 0), (0, 60, 0), (0, 86399, 999999), (400, 0, 0), (0, 90, 0), (-1, 1, 0), (1, -1, 0)]
     tds += [(rng.randint(-10000, 10000), rng.randint(0, 86399), rng.choice([0, rng.randint(0, 999999)])) for _ in range(n // 3)]
+    tds += [(0, 4, us) for us in range(1, 1000000, 7919 if quick else 997)]                # microsecond sweep at a fixed whole-second part
+    tds += [(rng.randint(-999999, 999999), rng.randint(0, 86399), rng.randint(1, 999999)) for _ in range(n // 3)]     # large day counts with microseconds
     for t in tds:
         add("timedelta", list(t))
     # the Duration class refuses years and days that are both negative: negative values carry a year-month part only
